@@ -1,9 +1,12 @@
-(* C17 (partial step towards tax-group invariance): the total base a category receives does not
-   depend on the order of the taxable rows - a corollary of C02's partition theorem. *)
-From Coq Require Import ZArith QArith List Bool Permutation.
-From Verif Require Import Base.Wire Num.Amount Num.AmountProofs Calc.Doc Calc.Calc Calc.TaxProofs.
+(* C17: the tax summary does not depend on the order of the taxable rows.
+   Part 1 - what a group's base is, in terms of the rows alone (a fold over the rows of its class in
+   row order), hence invariant under permutation because the accumulator is commutative. *)
+From Coq Require Import ZArith QArith List Bool Lia Permutation.
+From Verif Require Import Base.Wire Base.Rha Base.RhaProofs Num.Amount Num.AmountProofs Calc.Doc Calc.Calc
+  Calc.PermProofs Calc.TaxProofs.
 Import ListNotations.
 
+(* ---------------- corollary of the partition theorem ---------------- *)
 Lemma sumQ_rows_perm cr c cat tls tls' : Permutation tls tls' -> sumQ_rows cr c cat tls == sumQ_rows cr c cat tls'.
 Proof.
   intros P. unfold sumQ_rows.
@@ -18,3 +21,147 @@ Theorem category_base_independent_of_row_order cr c cat tls tls' :
   Permutation tls tls' ->
   sumQ_bases cat (base_totals cr c tls) == sumQ_bases cat (base_totals cr c tls').
 Proof. intros P. rewrite !tax_partition_rule. apply sumQ_rows_perm. exact P. Qed.
+
+(* ---------------- rate classes ---------------- *)
+(* two combos are of the same class when a group created by the first would take the second *)
+Definition klass (cb1 cb2 : combo) : bool := rt_matches (new_rt 0 cb1) cb2.
+
+Lemma klass_spec cb1 cb2 :
+  klass cb1 cb2 = true <->
+  cb_ext cb1 = cb_ext cb2 /\ cb_country cb1 = cb_country cb2 /\
+  same_rate (cb_pct cb1) (cb_sur cb1) (cb_pct cb2) (cb_sur cb2).
+Proof. unfold klass. rewrite rt_matches_spec. reflexivity. Qed.
+
+Lemma opt_eqQ_refl s : opt_eqQ s s.
+Proof. destruct s; cbn; [reflexivity|exact I]. Qed.
+Lemma opt_eqQ_sym s t : opt_eqQ s t -> opt_eqQ t s.
+Proof. destruct s, t; cbn; auto. intros H. symmetry. exact H. Qed.
+Lemma opt_eqQ_trans s t u : opt_eqQ s t -> opt_eqQ t u -> opt_eqQ s u.
+Proof. destruct s, t, u; cbn; try tauto. intros A B. rewrite A. exact B. Qed.
+
+Lemma same_rate_sym p s q t : same_rate p s q t -> same_rate q t p s.
+Proof.
+  unfold same_rate. destruct p, q; try tauto. intros [A B]. split; [symmetry; exact A|apply opt_eqQ_sym; exact B].
+Qed.
+(* transitivity through a middle that is not exempt on one side only; exempt rows do not look at
+   surcharges, so the middle must be of the same kind *)
+Lemma same_rate_trans p s q t r u : same_rate p s q t -> same_rate q t r u -> same_rate p s r u.
+Proof.
+  unfold same_rate. destruct p, q, r; try tauto. intros [A B] [C D].
+  split; [rewrite A; exact C|eapply opt_eqQ_trans; eauto].
+Qed.
+
+Lemma klass_refl cb : klass cb cb = true.
+Proof. unfold klass. apply rt_matches_new. Qed.
+Lemma klass_sym a b : klass a b = klass b a.
+Proof.
+  destruct (klass a b) eqn:E, (klass b a) eqn:F; try reflexivity.
+  - apply klass_spec in E. destruct E as (E1 & E2 & E3).
+    assert (klass b a = true) by (apply klass_spec; repeat split; try congruence; apply same_rate_sym; exact E3). congruence.
+  - apply klass_spec in F. destruct F as (E1 & E2 & E3).
+    assert (klass a b = true) by (apply klass_spec; repeat split; try congruence; apply same_rate_sym; exact E3). congruence.
+Qed.
+Lemma klass_trans a b d : klass a b = true -> klass b d = true -> klass a d = true.
+Proof.
+  rewrite !klass_spec. intros (A1 & A2 & A3) (B1 & B2 & B3). repeat split; try congruence.
+  eapply same_rate_trans; eauto.
+Qed.
+
+(* a group takes a combo iff the group's own rate is of the combo's class *)
+Lemma matches_trans g a b : rt_matches g a = true -> klass a b = true -> rt_matches g b = true.
+Proof.
+  rewrite !rt_matches_spec, klass_spec. intros (A1 & A2 & A3) (B1 & B2 & B3). repeat split; try congruence.
+  eapply same_rate_trans; eauto.
+Qed.
+Lemma matches_join g a b : rt_matches g a = true -> rt_matches g b = true -> klass a b = true.
+Proof.
+  rewrite !rt_matches_spec, klass_spec. intros (A1 & A2 & A3) (B1 & B2 & B3). repeat split; try congruence.
+  eapply same_rate_trans; [apply same_rate_sym; exact A3|exact B3].
+Qed.
+Lemma new_rt_matches c a b : rt_matches (new_rt c a) b = klass a b.
+Proof. reflexivity. Qed.
+
+(* ---------------- what a group's base is ---------------- *)
+Definition find_group (q : combo) (rts : list rate_total) : option rate_total :=
+  find (fun g => rt_matches g q) rts.
+
+Definition add_pair (cr : bool) (c : nat) (rts : list rate_total) (p : amount * combo) : list rate_total :=
+  add_to_rates cr c (fst p) (snd p) rts.
+
+(* one step: the group found for q grows by the row iff the row's combo is of q's class *)
+Lemma find_group_add cr c tot cb q rts :
+  option_map rt_base (find_group q (add_to_rates cr c tot cb rts)) =
+  if klass cb q
+  then Some (acc_rr cr (match find_group q rts with Some g => rt_base g | None => zero_of c end) tot)
+  else option_map rt_base (find_group q rts).
+Proof.
+  unfold find_group. induction rts as [|g rts IH]; cbn [add_to_rates find].
+  - rewrite rt_matches_add_base, new_rt_matches. destruct (klass cb q); reflexivity.
+  - destruct (rt_matches g cb) eqn:M.
+    + cbn [find]. rewrite rt_matches_add_base.
+      destruct (rt_matches g q) eqn:Q.
+      * rewrite (matches_join g cb q M Q). reflexivity.
+      * destruct (klass cb q) eqn:K; [|reflexivity].
+        rewrite (matches_trans g cb q M K) in Q. discriminate.
+    + cbn [find]. destruct (rt_matches g q) eqn:Q.
+      * destruct (klass cb q) eqn:K; [|reflexivity].
+        rewrite klass_sym in K. rewrite (matches_trans g q cb Q K) in M. discriminate.
+      * exact IH.
+Qed.
+
+Definition class_rows (q : combo) (ps : list (amount * combo)) : list amount :=
+  map fst (filter (fun p => klass (snd p) q) ps).
+
+Lemma class_rows_cons q tot cb ps :
+  class_rows q ((tot, cb) :: ps) = if klass cb q then tot :: class_rows q ps else class_rows q ps.
+Proof. unfold class_rows. cbn [filter snd]. destruct (klass cb q); reflexivity. Qed.
+
+Lemma find_group_fold cr c q ps : forall rts,
+  option_map rt_base (find_group q (fold_left (add_pair cr c) ps rts)) =
+  match class_rows q ps, find_group q rts with
+  | [], o => option_map rt_base o
+  | l, Some g => Some (fold_left (acc_rr cr) l (rt_base g))
+  | l, None => Some (fold_left (acc_rr cr) l (zero_of c))
+  end.
+Proof.
+  induction ps as [|[tot cb] ps IH]; intros rts.
+  - reflexivity.
+  - cbn [fold_left]. rewrite IH, class_rows_cons. change (add_pair cr c rts (tot, cb)) with (add_to_rates cr c tot cb rts).
+    pose proof (find_group_add cr c tot cb q rts) as S.
+    destruct (klass cb q) eqn:K.
+    + destruct (find_group q (add_to_rates cr c tot cb rts)) as [g'|]; cbn [option_map] in S; [|discriminate].
+      inversion S as [E]. cbn [fold_left].
+      destruct (class_rows q ps) as [|x l]; cbn [fold_left option_map]; rewrite E; destruct (find_group q rts); reflexivity.
+    + destruct (class_rows q ps) as [|x l].
+      * exact S.
+      * destruct (find_group q (add_to_rates cr c tot cb rts)) as [g'|], (find_group q rts) as [g|]; cbn [option_map] in S; try discriminate;
+          [inversion S as [E]; rewrite E|]; reflexivity.
+Qed.
+
+(* permuting the rows permutes the rows of every class, and the accumulator is commutative *)
+Lemma class_rows_perm q ps ps' : Permutation ps ps' -> Permutation (class_rows q ps) (class_rows q ps').
+Proof.
+  intros P. unfold class_rows. apply Permutation_map.
+  induction P as [|x l l' _ IH|x y l|l l' l'' _ IH1 _ IH2]; cbn [filter].
+  - constructor.
+  - destruct (klass (snd x) q); [constructor|]; exact IH.
+  - destruct (klass (snd x) q), (klass (snd y) q); try apply Permutation_refl; apply perm_swap.
+  - eapply Permutation_trans; eauto.
+Qed.
+
+Lemma fold_acc_rr_perm cr l l' z : Permutation l l' -> fold_left (acc_rr cr) l z = fold_left (acc_rr cr) l' z.
+Proof. intros P. apply (fold_perm (acc_rr cr) (acc_rr_comm cr) _ _ P). Qed.
+
+Theorem group_base_independent_of_row_order cr c q ps ps' :
+  Permutation ps ps' ->
+  option_map rt_base (find_group q (fold_left (add_pair cr c) ps [])) =
+  option_map rt_base (find_group q (fold_left (add_pair cr c) ps' [])).
+Proof.
+  intros P. rewrite !find_group_fold. cbn [find_group find].
+  pose proof (class_rows_perm q ps ps' P) as PC.
+  destruct (class_rows q ps) as [|x l] eqn:E1, (class_rows q ps') as [|y l'] eqn:E2.
+  - reflexivity.
+  - apply Permutation_nil in PC. discriminate.
+  - apply Permutation_sym, Permutation_nil in PC. discriminate.
+  - f_equal. apply fold_acc_rr_perm. exact PC.
+Qed.
